@@ -45,13 +45,13 @@ OutSign(i) ==
       base == [ pret |-> 1, gret |-> 1, ret |-> 1, guard |-> 1, same |-> 1, proof |-> sg.proof, maxsz_ok |-> 1, icb |-> 0,
                 iret |-> 1, iexp |-> IF pp.mant = 0 THEN -1 ELSE pp.exp, imant |-> pp.mant,
                 imin |-> U64To8(pp.min), imax |-> U64To8(RpParamMax(pp)) ]
-      other == IF "nonce2" \in DOMAIN i /\ i.nonce2 # i.nonce THEN [ wret |-> 0 ] ELSE [ icb |-> 0 ]
+      other == IF "nonce2" \in DOMAIN i /\ i.nonce2 # i.nonce THEN [ wret |-> 0, wret0 |-> 0 ] ELSE [ icb |-> 0 ]
   IN
   \* the signer does not check that the commitment opens to (blind, value); the promises hold when it does
   IF RpCommitPoint(FromBytesBE(i.blind), value, H) = C
   THEN base @@ other @@
        [ vret |-> 1, vmin |-> U64To8(pp.min), vmax |-> U64To8(RpParamMax(pp)),
-         rret |-> 1, rvalue |-> i.value, rblind |-> i.blind, rguard |-> 1,
+         rret |-> 1, rret0 |-> 1, rvalue |-> i.value, rblind |-> i.blind, rguard |-> 1,
          rmsg |-> PadTo(msg, RpMin2(mlen, 32 * (RpMax2(RpSum(pp.rsizes), 2) - 2))),
          rmin |-> U64To8(pp.min), rmax |-> U64To8(RpParamMax(pp)) ]
   ELSE base @@ other @@ RpApiCheck(C, H, sg.proof, extra, TRUE, i.nonce, mlen)
